@@ -28,7 +28,7 @@ TITLE = 'render errors: type, expression, position'
 LEVEL = 'exploration'
 SHARDS = {'quick': 16, 'thorough': 16}
 FLOOR = {'quick': 400, 'thorough': 4000}
-REQUIRED_MONITORS = {'M-exc': 2500, 'records-compared': 2000, 'chain-records-compared': 400, 'non-exception-classes': 100}
+REQUIRED_MONITORS = {'M-exc': 2500, 'records-compared': 2000, 'chain-records-compared': 400, 'non-exception-classes': 100, 'deferred-messages-rechecked': 2000}
 RULE = ('(A) a case = (program, binding table, failing occurrence among those the model reaches, exception class from '
         '{KeyError, ValueError, ZeroDivisionError, CustomError(2 args + attribute), StrOverride, UnicodeDecodeError, '
         'RecursionError, KeyboardInterrupt, SystemExit, GeneratorExit}); (B) a case = (layout of the 3-file chain, failing '
@@ -146,7 +146,24 @@ def check_exception(ctx, e, clsname, want_records, what, replay):
         return finish(ctx, ['records %r, expected %r' % (recs, want)], key, what, replay)
     if clsname == 'StrOverride' and 'custom-str' not in msg:
         return finish(ctx, ['the original message is missing from %r' % msg[:80]], 'original-message-lost', what, replay)
+    # deferred formatting: an error collected earlier and reported only now (batch job, logging handler)
+    # must still describe ITS failure, whatever failed since
+    for old_e, old_want, old_what in PENDING:
+        ctx.mon('deferred-messages-rechecked')
+        try:
+            old_msg = str(old_e)
+        except Exception as e2:
+            old_msg = 'str() raised %s' % type(e2).__name__
+        old_recs = [(a, b[-40:], int(c), int(d)) for a, b, c, d in REC.findall(old_msg)]
+        if old_recs != old_want:
+            finish(ctx, ['formatted again after a later failure (%s) the records are %r, expected %r' % (what[:200], old_recs, old_want)],
+                   'earlier-error-message-changes-after-a-later-failure', old_what, replay)
+    PENDING.append((e, want, what))
+    del PENDING[:-3]
     return True
+
+
+PENDING = []
 
 
 def finish(ctx, problems, key, what, replay):
@@ -164,7 +181,10 @@ def layer_string_templates(ctx, n):
         g = c01.Gen(rng, maxdepth=1 if ctx.quick else 2)
         root = g.element(0, False)
         c01.tal_block_fix(root)
-        lead = rng.choice(['', '\n', 'é日\n  ', '<!-- c -->\n\t'])
+        lead = rng.choice(['', '\n', 'é日\n  ', '<!-- c -->\n\t',
+                           # expression tokens spanning several lines BEFORE the failing one
+                           '<i tal:define="zq (1,\n   2,\n 3)" tal:attributes="a {\'k\':\n 1}">m</i>\n  ',
+                           '<?python\nzp = [1,\n  2]\nzr = 3\n?>\n <i tal:content="zp[0] +\n zr">m</i> '])
         src = lead + '<root>' + tmodel.serialise(root, random.Random(rng.randrange(1 << 30))) + '</root>'
         try:
             t = PageTemplate(src)
